@@ -84,6 +84,22 @@ def gen_tree(rng, depth, want="int", locals_=()):
             return gen_str(rng)
         return gen_num(rng)
     c = rng.random()
+    if want == "bool" and rng.random() < 0.07:
+        # two strings compared: what is compared is the numbers their encoded bytes denote - the same text in another
+        # encoding, or with a leading zero byte, may well be the same number
+        base = gen_str(rng)
+        def variant():
+            r = rng.random()
+            if r < 0.35:
+                return base
+            if r < 0.7:
+                return {"k": "call", "f": rng.choice(ENCODINGS), "args": [base]}
+            if r < 0.85 and base.get("k") == "str":
+                z = dict(base)
+                z["src"] = [92, 48] + list(base["src"])
+                return z
+            return gen_str(rng)
+        return {"k": "bin", "op": rng.choice(["eq", "eq", "ne", "le", "ge", "lt"]), "l": variant(), "r": variant()}
     if want == "bool":
         if c < 0.45:
             return {"k": "bin", "op": rng.choice(REL), "l": gen_tree(rng, depth - 1, "int", locals_),
@@ -120,9 +136,14 @@ def gen_tree(rng, depth, want="int", locals_=()):
     if c < 0.88:
         f = rng.choice(["le", "sizeof", "strlen", "le", "sizeof"])
         def a_string():
-            # plain, or in one of the encodings (whose byte count differs from the UTF-8 one)
+            # plain, or in one of the encodings (whose byte count differs from the UTF-8 one), or re-encoded: the
+            # outermost encoding is the one that counts
             sv = gen_str(rng)
-            return sv if rng.random() < 0.5 else {"k": "call", "f": rng.choice(ENCODINGS), "args": [sv]}
+            r2 = rng.random()
+            if r2 < 0.45:
+                return sv
+            inner = {"k": "call", "f": rng.choice(ENCODINGS), "args": [sv]}
+            return inner if r2 < 0.8 else {"k": "call", "f": rng.choice(ENCODINGS), "args": [inner]}
         if f == "strlen":
             arg = a_string() if rng.random() < 0.9 else gen_num(rng)
         elif f == "le":
